@@ -116,7 +116,10 @@ def lookup_attribute_facts(ctx, rid):
                        ("SuitKeyValueTuple.from_cbor", "id")):
         fi, found = lookup_attr_used(qual)
         if not found:
-            raise AnalysisError(f"{qual}: no call of _get_method_and_name recognised")
+            R.fail(rid, f"{qual} selects the entry by {want}", node=fi.node, function=ctx.fq(fi), mod=fi.module,
+                   expected=f"the entry is looked up in the node's own table (cls._get_method_and_name(key, {want!r}))",
+                   found="no lookup in the node's own table: a name / code resolved elsewhere is not confined to this key space")
+            continue
         R.check(rid, found == {want}, f"{qual} selects the entry by {want}", node=fi.node, function=ctx.fq(fi),
                 mod=fi.module, expected=f"lookup attribute {want!r}", found=f"lookup attribute(s) {sorted(found)}")
 
